@@ -2,7 +2,8 @@
 import json, os, sys, time, hashlib
 
 VERIF = os.path.normpath(os.path.join(os.path.dirname(os.path.abspath(__file__)), ".."))
-EVIDENCE = os.path.join(VERIF, "evidence")
+# a run against a scratch tree (VERIF_REPO, development only) must not overwrite the evidence describing /repo
+EVIDENCE = os.path.join(VERIF, "evidence") if os.environ.get("VERIF_REPO", "/repo") == "/repo" else os.path.join(VERIF, "work", "evidence-scratch")
 KNOWN = os.path.join(VERIF, "known_findings.json")
 
 
